@@ -94,7 +94,13 @@ class QCircuitEnhanced(QCircuit):
 
     def add_ancilla(self, name=None, is_free=True):
         """Add an ancilla qubit"""
-        i = self.add_qubit(name if name else f"anc_{len(self.ancilla_lst)}")
+        if not name:
+            # an argument or a variable of the function may be called anc_<n> as well
+            n = len(self.ancilla_lst)
+            while f"anc_{n}" in self.qubit_map:
+                n += 1
+            name = f"anc_{n}"
+        i = self.add_qubit(name)
         self.ancilla_lst.add(i)
         if is_free:
             self.free_ancilla_lst.add(i)
